@@ -69,3 +69,7 @@ impl<V> BTreeMap<u64, V> {
 /// weak spec (enough to type-check mutants; nothing about WHICH elements stay beyond being old elements in order is claimed)
 pub assume_specification<T, A: core::alloc::Allocator, F: FnMut(&T) -> bool> [Vec::<T, A>::retain] (v: &mut Vec<T, A>, f: F)
     ensures final(v)@.len() <= old(v)@.len();
+pub assume_specification<T, E> [Result::<T, E>::unwrap_or] (r: Result<T, E>, default: T) -> (v: T)
+    ensures r is Ok ==> v == r->Ok_0, r is Err ==> v == default;
+pub assume_specification<T: Default, E> [Result::<T, E>::unwrap_or_default] (r: Result<T, E>) -> (v: T)
+    ensures r is Ok ==> v == r->Ok_0;
